@@ -257,8 +257,11 @@ def run_bin(binpath, meta, seed, tier, extra, log, timeout):
 def eval_model(meta, cases, log):
     """returns dict id -> True/False (agreement), plus list of shard errors"""
     t_ev = time.time()
-    wd = os.path.join(WORK, meta["id"], "cases")
-    shutil.rmtree(wd, ignore_errors=True)
+    # one directory per run so that concurrent checks of the same property do not clobber each other
+    base = os.path.join(WORK, meta["id"])
+    for old in sorted(d for d in os.listdir(base) if d.startswith("cases-"))[:-3]:
+        shutil.rmtree(os.path.join(base, old), ignore_errors=True)
+    wd = os.path.join(base, "cases-%d-%d" % (int(time.time()), os.getpid()))
     os.makedirs(wd)
     todo = [c for c in cases if c.get("coq_case") and c.get("expect")]
     shard = meta.get("shard", 200)
@@ -302,7 +305,7 @@ def paren(s):
 
 def model_output(meta, case):
     """what the model computes for one case (for replay files / diagnostics)"""
-    wd = os.path.join(WORK, meta["id"], "diag")
+    wd = os.path.join(WORK, meta["id"], "diag-%d" % os.getpid())
     os.makedirs(wd, exist_ok=True)
     run_mod = "AV." + meta["run_file"][len("theories/"):-2].replace("/", ".")
     src = "From Coq Require Import String List NArith.\nFrom AV Require Import Lib.Base Lib.V.\nRequire Import %s.\nImport ListNotations.\nOpen Scope N_scope.\n%s\nEval vm_compute in (%s %s).\n" % (
